@@ -17,6 +17,13 @@ package common
 //@ smt (assert (forall ((k Bytes) (iv Bytes) (p Bytes)) (! (= (blen (cbcDec k iv p)) (blen p)) :pattern ((cbcDec k iv p)))))
 //@ smt (assert (forall ((k Bytes) (iv Bytes) (p Bytes)) (! (=> (= (mod (blen p) 16) 0) (= (cbcDec k iv (cbcEnc k iv p)) p)) :pattern ((cbcEnc k iv p)))))
 
+// extensionality instance for 32-byte strings: a 32-byte string that agrees with kdf(p) byte by byte is kdf(p)
+//@ smt (assert (forall ((p Bytes) (k Bytes)) (! (=> (and (= (blen k) 32) (= (bat k 0) (ite (< 0 (blen p)) (bat p 0) 0)) (= (bat k 1) (ite (< 1 (blen p)) (bat p 1) 0)) (= (bat k 2) (ite (< 2 (blen p)) (bat p 2) 0)) (= (bat k 3) (ite (< 3 (blen p)) (bat p 3) 0)) (= (bat k 4) (ite (< 4 (blen p)) (bat p 4) 0)) (= (bat k 5) (ite (< 5 (blen p)) (bat p 5) 0)) (= (bat k 6) (ite (< 6 (blen p)) (bat p 6) 0)) (= (bat k 7) (ite (< 7 (blen p)) (bat p 7) 0)) (= (bat k 8) (ite (< 8 (blen p)) (bat p 8) 0)) (= (bat k 9) (ite (< 9 (blen p)) (bat p 9) 0)) (= (bat k 10) (ite (< 10 (blen p)) (bat p 10) 0)) (= (bat k 11) (ite (< 11 (blen p)) (bat p 11) 0)) (= (bat k 12) (ite (< 12 (blen p)) (bat p 12) 0)) (= (bat k 13) (ite (< 13 (blen p)) (bat p 13) 0)) (= (bat k 14) (ite (< 14 (blen p)) (bat p 14) 0)) (= (bat k 15) (ite (< 15 (blen p)) (bat p 15) 0)) (= (bat k 16) (ite (< 16 (blen p)) (bat p 16) 0)) (= (bat k 17) (ite (< 17 (blen p)) (bat p 17) 0)) (= (bat k 18) (ite (< 18 (blen p)) (bat p 18) 0)) (= (bat k 19) (ite (< 19 (blen p)) (bat p 19) 0)) (= (bat k 20) (ite (< 20 (blen p)) (bat p 20) 0)) (= (bat k 21) (ite (< 21 (blen p)) (bat p 21) 0)) (= (bat k 22) (ite (< 22 (blen p)) (bat p 22) 0)) (= (bat k 23) (ite (< 23 (blen p)) (bat p 23) 0)) (= (bat k 24) (ite (< 24 (blen p)) (bat p 24) 0)) (= (bat k 25) (ite (< 25 (blen p)) (bat p 25) 0)) (= (bat k 26) (ite (< 26 (blen p)) (bat p 26) 0)) (= (bat k 27) (ite (< 27 (blen p)) (bat p 27) 0)) (= (bat k 28) (ite (< 28 (blen p)) (bat p 28) 0)) (= (bat k 29) (ite (< 29 (blen p)) (bat p 29) 0)) (= (bat k 30) (ite (< 30 (blen p)) (bat p 30) 0)) (= (bat k 31) (ite (< 31 (blen p)) (bat p 31) 0))) (= k (kdf p))) :pattern ((kdf p) (blen k)))))
+// facts of the byte-string theory that follow from extensionality (stated as axioms: the solvers do not
+// prove equalities of byte strings from element-wise facts unprompted)
+//@ smt (assert (forall ((a Bytes) (b Bytes)) (! (= (bsub (bcat a b) 0 (blen a)) a) :pattern ((bcat a b)))))
+//@ smt (assert (forall ((a Bytes) (b Bytes)) (! (= (bsub (bcat a b) (blen a) (+ (blen a) (blen b))) b) :pattern ((bcat a b)))))
+//@ smt (assert (forall ((a Bytes)) (! (= (bsub a 0 (blen a)) a) :pattern ((blen a)))))
 //@ ghost *.aeskey Bytes
 //@ ghost *.cbciv Bytes
 //@ ghost *.cbcdec Bool
@@ -40,13 +47,30 @@ package common
 
 // new format: IV(16) ++ CBC(kdf(password), IV, key)
 //@ func CBCEncrypterPrivkey [C37]
-//@   opt safety=assumed overflow=assumed
+//@   opt safety=assumed overflow=assumed bytescat=yes
+//@   assert@call NewCipher: len(arg0) == 32 && bytes(arg0) == kdf(bytes(password))
+//@   assert@call NewCBCEncrypter: arg0.aeskey == kdf(bytes(password))
+//@   assert@call CryptBlocks: arg0.aeskey == kdf(bytes(password)) && arg0.cbciv == bytes(iv) && !arg0.cbcdec
+//@   assert@call CryptBlocks: bytes(arg2) == old(bytes(privkey)) && len(arg1) == len(arg2)
+//@   assert@call builtin.append: encrypter.cbciv == bytes(iv) && encrypter.aeskey == kdf(bytes(password)) && !encrypter.cbcdec
+//@   assert@call builtin.append: bytes(Encrypted) == cbcEnc(encrypter.aeskey, encrypter.cbciv, old(bytes(privkey)))
+//@   assert@call builtin.append: bytes(Encrypted) == cbcEnc(kdf(bytes(password)), bytes(iv), old(bytes(privkey)))
 //@   ensures !isnil(result) ==> len(result) == 16 + len(privkey)
+//@   ensures !isnil(result) ==> bytes(result) == bcat(bytes(iv), bytes(Encrypted))
+//@   ensures !isnil(result) ==> bytes(Encrypted) == cbcEnc(kdf(bytes(password)), bytes(iv), old(bytes(privkey)))
+//@   ensures !isnil(result) ==> blen(bytes(iv)) == 16 && bsub(bytes(result), 0, 16) == bytes(iv)
 //@   ensures !isnil(result) ==> bsub(bytes(result), 16, 16 + len(privkey)) == cbcEnc(kdf(bytes(password)), bsub(bytes(result), 0, 16), old(bytes(privkey)))
 
 // new format iff the blob is IV + 32 or 64 bytes of ciphertext; otherwise the legacy fixed IV
 //@ func CBCDecrypterPrivkey [C37]
 //@   opt safety=assumed overflow=assumed
+//@   assert@call NewCipher: len(arg0) == 32 && bytes(arg0) == kdf(bytes(password))
+//@   assert@call NewCBCDecrypter: arg0.aeskey == kdf(bytes(password))
+//@   assert@call NewCBCDecrypter#0: bytes(arg1) == bsub(old(bytes(privkey)), 0, 16)
+//@   assert@call NewCBCDecrypter#1: bytes(arg1) == bsub(kdf(bytes(password)), 0, 16)
+//@   assert@call CryptBlocks: arg0.aeskey == kdf(bytes(password)) && arg0.cbcdec && len(arg1) == len(arg2)
+//@   assert@call CryptBlocks#0: arg0.cbciv == bsub(old(bytes(privkey)), 0, 16) && bytes(arg2) == bsub(old(bytes(privkey)), 16, len(privkey))
+//@   assert@call CryptBlocks#1: arg0.cbciv == bsub(kdf(bytes(password)), 0, 16) && bytes(arg2) == old(bytes(privkey))
 //@   ensures !isnil(result) && len(privkey) > 16 && len(privkey) % 16 == 0 && (len(privkey) == 48 || len(privkey) == 80) ==> bytes(result) == cbcDec(kdf(bytes(password)), bsub(old(bytes(privkey)), 0, 16), bsub(old(bytes(privkey)), 16, len(privkey)))
 //@   ensures !isnil(result) && !(len(privkey) > 16 && len(privkey) % 16 == 0 && (len(privkey) == 48 || len(privkey) == 80)) ==> bytes(result) == cbcDec(kdf(bytes(password)), bsub(kdf(bytes(password)), 0, 16), old(bytes(privkey)))
 
